@@ -218,6 +218,11 @@ func (s *FlowState) eval(v ssa.Value, depth int) absVal {
 		case "fmt.Errorf", "errors.New":
 			return absVal{k: absNonNil}
 		}
+	case *ssa.Extract:
+		// the value result of a failed comma-ok operation is the zero value (x_fa09_w.go)
+		if _, explicit := s.vals[v]; !explicit && s.commaOkZeroW(x) {
+			return absVal{k: absNil}
+		}
 	}
 	if a, ok := s.vals[v]; ok {
 		return a
